@@ -52,6 +52,12 @@ def gate(ob: str, **args: Any) -> bool:
     return True
 
 
+class HarnessLimit(BaseException):
+    """Raised by an environment stub when the code under test uses a facility
+    the stub does not model (e.g. threading.Timer). Never a property violation:
+    the replay maps it to the harness-error exit code."""
+
+
 def gate_native(ob: str, vec: Dict[str, Any]) -> bool:
     try:
         return bool(gate(ob, **vec))
